@@ -111,7 +111,7 @@ class Report:
             return 1
         # harness errors never turn into exit 0: a check that could not run did not hold
         if self.harness_errors:
-            tol = max(2, int(0.002 * max(1, cov.get("evaluations", 0))))
+            tol = 0 if self.prop == "C10" else max(2, int(0.001 * max(1, cov.get("evaluations", 0))))
             if len(self.harness_errors) > tol:
                 print(f"{self.prop}: {len(self.harness_errors)} harness errors (tolerated: {tol}) -> exit 2")
                 return 2
